@@ -89,6 +89,11 @@ def generate(seed: int, tier: str = "quick") -> dict:
         "assets": {t0[0]: funds, t1[0]: funds},
         "prices": None, "markets": markets,
     }
+    ro = R.sub(seed, "assets_omit")
+    if ro.random() < 0.2:
+        # the configured assets name only one of the pool's tokens (legal: the market opens a zero balance for the other
+        # when the run starts; a strategy gets that token by trading)
+        del world["assets"][ro.choice([t0[0], t1[0]])]
     grid = _grid(start, n, k)
     labels = sorted(set(grid))
     nb = len(labels)
